@@ -661,8 +661,8 @@ func runFam(t *testing.T, r *vlib.Run, fam string, n int) {
 
 func TestVerifC30(t *testing.T) {
 	r := vlib.Start(t, "C30")
-	runFam(t, r, "mixed", r.N(1200, 20000)/light())
-	runFam(t, r, "storm", r.N(500, 8000)/light())
+	runFam(t, r, "mixed", r.N(1200, 16000)/light())
+	runFam(t, r, "storm", r.N(500, 6000)/light())
 	r.Finish(vlib.Spec{
 		Level: "exploration",
 		Rule:  "real ClientConn (manual resolver with 1-3 addresses, recording LB policy delegating to pick_first, idle timeout in {off,1s,3s,10s}, backoff base 100ms/1s, max 1-20x, jitter 0/0.2) dialing through a scripted network whose per-address behaviour queue mixes refuse, accept, accept-then-close (before and after the server preface) and hang; 12-52 steps: Connect, virtual sleeps 10ms-25s (backoff and idle timers fire), close or GOAWAY a live connection, change behaviours, resolver updates with other address subsets, RPCs with deadlines, ResetConnectBackoff, Close in the middle, and (family storm) bursts of Connect against servers that hang up right after the handshake; 1-8 watcher goroutines loop GetState/WaitForStateChange. Oracles: per subchannel only the edges IDLE>CONNECTING, CONNECTING>READY|TRANSIENT_FAILURE|IDLE, READY>IDLE, TRANSIENT_FAILURE>IDLE, any>SHUTDOWN as delivered to the LB policy, nothing after SHUTDOWN or after the policy's Close, TRANSIENT_FAILURE>IDLE no earlier than base*(1-jitter) unless ResetConnectBackoff intervened; at every quiescent point: GetState == last state published to a subscriber, no watcher blocked in WaitForStateChange(s) with GetState != s, every live subchannel's last delivered state agrees with the network (CONNECTING needs an outstanding dial, READY a live connection, TRANSIENT_FAILURE not older than the longest backoff, a Connect() after IDLE must have produced a state); the channel publishes nothing after SHUTDOWN; every watcher's observations are an in-order subsequence of the published states and end in SHUTDOWN. Non-trivial = watchers were checked and the channel changed state; distinct = set of subchannel and channel edges seen in the case.",
